@@ -181,8 +181,21 @@ package webrtc
 //@ func (logging.LeveledLogger).Debugf
 //@ trusted
 //@ modifies nothing
-//@ func (Certificate).Equals
+// Two certificates are Equal only if their x509 certificates are (hence the same DER and the
+// same fingerprint): SetConfiguration may then exchange one for the other without the
+// advertised fingerprint departing from the certificate the DTLS transport presents.
+// Assumed: x509.Certificate.Equal is a function of the two certificate objects.
+//@ func (*x509.Certificate).Equal
 //@ trusted
+//@ ensures result == ufbool("x509eq", ufint("certId", c), ufint("certId", other))
+//@ modifies nothing
+//@ func (*big.Int).Cmp
+//@ trusted
+//@ modifies nothing
+//@ func (Certificate).Equals
+//@ props C14 C39
+//@ nosafety
+//@ ensures result ==> ufbool("x509eq", ufint("certId", c.x509Cert), ufint("certId", cert.x509Cert))
 //@ modifies nothing
 
 // SetConfiguration: immutable settings never change; a rejected call leaves the
